@@ -308,6 +308,10 @@ Definition sp_qop_mp11 (pol:nat) (mc:machine) (o:op) (st:qstate) : list titem * 
                         (rev (i ++ o_items o), Some (o_taken o, o_rejected o), (c', []))
   | OEnqueue e => ([], None, (c, pend ++ [e]))
   | ODrain val _ => let '(i, c') := sp_drain pol mc val pend c in (rev i, None, (c', []))
+  | ODrain1 val _ => match pend with
+                     | [] => ([], None, st)
+                     | e :: t => let o := sp_process pol mc e val c in (rev (o_items o), None, (o_conf o, t))
+                     end
   | _ => ([], None, st)
   end.
 Fixpoint sp_qrun_mp11 (pol:nat) (mc:machine) (st:qstate) (l:list op) : list (list titem * option (bool * bool) * list (list nat * list nat)) :=
@@ -326,6 +330,7 @@ Fixpoint qbracketed (started:bool) (l:list op) : Prop :=
       | OProcess e _ [], true => e_ty e <> EV_NONE /\ qbracketed true t
       | OEnqueue e, _ => e_ty e <> EV_NONE /\ qbracketed started t
       | ODrain _ [], true => qbracketed true t
+      | ODrain1 _ [], true => qbracketed true t
       | _, _ => False
       end
   end.
@@ -339,6 +344,7 @@ Fixpoint qbracketedb (started:bool) (l:list op) : bool :=
       | OProcess e _ [], true => negb (Nat.eqb (e_ty e) EV_NONE) && qbracketedb true t
       | OEnqueue e, _ => negb (Nat.eqb (e_ty e) EV_NONE) && qbracketedb started t
       | ODrain _ [], true => qbracketedb true t
+      | ODrain1 _ [], true => qbracketedb true t
       | _, _ => false
       end
   end.
